@@ -1659,6 +1659,31 @@ func (v *Verifier) siteAssertsBefore(fn *ssa.Function, ins ssa.Instruction) []*S
 			for _, sa := range c.SiteAsserts {
 				placed := false
 				doneLines := map[int]bool{}
+				// `"text"#N`: only the N-th source line (in source order) of the function that contains the text
+				onlyLine := 0
+				if sa.Nth > 0 {
+					var lines []int
+					seenL := map[int]bool{}
+					for _, b := range fn.Blocks {
+						for _, in := range b.Instrs {
+							if _, isDbg := in.(*ssa.DebugRef); isDbg || !in.Pos().IsValid() {
+								continue
+							}
+							if _, txt := v.srcLine(in.Pos()); strings.Contains(txt, sa.Match) {
+								if l := v.fset.Position(in.Pos()).Line; !seenL[l] {
+									seenL[l] = true
+									lines = append(lines, l)
+								}
+							}
+						}
+					}
+					sort.Ints(lines)
+					if sa.Nth <= len(lines) {
+						onlyLine = lines[sa.Nth-1]
+					} else {
+						onlyLine = -1
+					}
+				}
 				for _, b := range fn.Blocks {
 					for i, in := range b.Instrs {
 						if _, isDbg := in.(*ssa.DebugRef); isDbg || !in.Pos().IsValid() {
@@ -1666,6 +1691,9 @@ func (v *Verifier) siteAssertsBefore(fn *ssa.Function, ins ssa.Instruction) []*S
 						}
 						_, txt := v.srcLine(in.Pos())
 						if !strings.Contains(txt, sa.Match) {
+							continue
+						}
+						if onlyLine != 0 && v.fset.Position(in.Pos()).Line != onlyLine {
 							continue
 						}
 						if doneLines[v.fset.Position(in.Pos()).Line] {
